@@ -202,6 +202,8 @@ pub struct Cli {
     pub should_auth: Option<bool>,
     pub got_transfer: bool,
     pub stored_auth: Option<Vec<u8>>,
+    /// the server asked for the authentication cookie
+    pub auth_requested: bool,
 }
 
 impl Cli {
@@ -210,7 +212,7 @@ impl Cli {
         if let Some(ip) = from { sock.bind(SocketAddr::new(IpAddr::V4(ip), 0))?; }
         let s = sock.connect(SocketAddr::new(IpAddr::V4(Ipv4Addr::LOCALHOST), port)).await?;
         s.set_nodelay(true)?;
-        Ok(Cli { s, enc: None, rx: vec![], phase: ClientPhase::Handshake, bytes_in: 0, t0: Instant::now(), should_auth: None, got_transfer: false, stored_auth: None })
+        Ok(Cli { s, enc: None, rx: vec![], phase: ClientPhase::Handshake, bytes_in: 0, t0: Instant::now(), should_auth: None, got_transfer: false, stored_auth: None, auth_requested: false })
     }
     pub async fn raw(&mut self, bytes: &[u8]) -> bool {
         let out = match self.enc.as_mut() { Some((c2s, _)) => c2s.enc(bytes), None => bytes.to_vec() };
@@ -278,7 +280,7 @@ impl Cli {
         loop {
             match self.recv(max).await {
                 Recv::Packet(CbPacket::CookieRequest(k)) if k == SESSION_KEY => { self.send(&b::cookie_response(SESSION_KEY, None)).await; }
-                Recv::Packet(CbPacket::CookieRequest(k)) if k == AUTH_KEY => { self.send(&b::cookie_response(AUTH_KEY, auth_cookie.as_deref())).await; }
+                Recv::Packet(CbPacket::CookieRequest(k)) if k == AUTH_KEY => { self.auth_requested = true; self.send(&b::cookie_response(AUTH_KEY, auth_cookie.as_deref())).await; }
                 Recv::Packet(CbPacket::EncRequest { token: t, should_auth, .. }) => { token = Some(t); self.should_auth = Some(should_auth); break; }
                 _ => return Stage::LoginStart,
             }
@@ -366,6 +368,11 @@ fn app_config(port: u16, max_len: u64, expiry: u64, secret: Option<&str>, timeou
 }
 
 fn app_config_full(port: u16, max_len: u64, expiry: u64, secret: Option<&str>, timeout_s: u64, proxy: Option<(bool, bool)>, limit: Option<usize>) -> passage::config::Config {
+    app_config_t(port, max_len, expiry, secret, timeout_s, proxy, limit, false)
+}
+
+#[allow(clippy::too_many_arguments)]
+fn app_config_t(port: u16, max_len: u64, expiry: u64, secret: Option<&str>, timeout_s: u64, proxy: Option<(bool, bool)>, limit: Option<usize>, with_target: bool) -> passage::config::Config {
     use passage::config as c;
     c::Config {
         // 20 s: longer than any history here, short enough that a window built in the wrong unit rolls over between connections
@@ -375,7 +382,7 @@ fn app_config_full(port: u16, max_len: u64, expiry: u64, secret: Option<&str>, t
         proxy_protocol: proxy.map(|(allow_v1, allow_v2)| c::ProxyProtocol { allow_v1, allow_v2 }),
         adapters: c::Adapters {
             authentication: c::AuthenticationAdapter::Fixed(c::FixedAuthentication::default()),
-            discovery: c::DiscoveryAdapter::Fixed(c::FixedDiscovery { targets: vec![] }),
+            discovery: c::DiscoveryAdapter::Fixed(c::FixedDiscovery { targets: if with_target { vec![Target { identifier: "t-0".into(), address: "10.0.0.1:25565".parse().unwrap(), meta: Default::default() }] } else { vec![] } }),
             ..Default::default()
         },
         ..Default::default()
@@ -413,15 +420,32 @@ fn c14_case(req: &str) -> Case {
             }
             "c14.cookie" => {
                 let (cfgexp, age, same) = (kvn(req, "cfgexp"), kvn(req, "age"), kvn(req, "same"));
-                let p = start_app(app_config(free_port(), 10_000, cfgexp, Some("configured secret"), 2, false));
-                let key: &[u8] = if same == 1 { b"configured secret" } else { b"another secret" };
+                // `nosecret=1`: the operator configured no secret at all (cookies are switched off); the client signs with the empty key
+                let nosecret = kvs(req, "nosecret").as_deref() == Some("1");
+                let p = start_app(app_config(free_port(), 10_000, cfgexp, if nosecret { None } else { Some("configured secret") }, 2, false));
+                let key: &[u8] = if nosecret { b"" } else if same == 1 { b"configured secret" } else { b"another secret" };
                 let cookie = sign(key, &cookie_json(now_secs() - age, "127.0.0.1:7", "Tester", 0x0987_9557_e479_45a9_b434_a563_7767_4627, Some("srv-0"), serde_json::json!([])));
                 let mut c = Cli::connect(p, None).await.expect("connect");
                 c.login(3, Some(cookie), Stage::EncRequest, Duration::from_millis(1500)).await;
-                let observed = match c.should_auth { Some(false) => "accept", Some(true) => "reject", None => "norequest" };
-                let want = if same == 1 && age <= cfgexp { "accept" } else { "reject" };
+                let observed = match (c.auth_requested, c.should_auth) { (false, _) => "norequest", (true, Some(false)) => "accept", (true, Some(true)) => "reject", (true, None) => "closed" };
+                let want = if nosecret { "norequest" } else if same == 1 && age <= cfgexp { "accept" } else { "reject" };
                 let oracle = if observed == want { None } else { Some(format!("configured auth_cookie_expiry={cfgexp}s and secret: a cookie aged {age}s signed with {} secret must be {want}ed, the server's answer was {observed}", if same == 1 { "the configured" } else { "another" })) };
-                Case { request: req.into(), observed: observed.into(), oracle, class: format!("cookie:{}:{}", if same == 1 { "same-secret" } else { "other-secret" }, if age <= cfgexp { "fresh" } else { "expired" }) }
+                Case { request: req.into(), observed: observed.into(), oracle, class: format!("cookie:{}:{}", if nosecret { "no-secret-configured" } else if same == 1 { "same-secret" } else { "other-secret" }, if age <= cfgexp { "fresh" } else { "expired" }) }
+            }
+            "c14.issued" => {
+                // a cookie issued by the server itself, presented again `wait` seconds later
+                let (cfgexp, wait) = (kvn(req, "cfgexp"), kvn(req, "wait"));
+                let p = start_app(app_config_t(free_port(), 10_000, cfgexp, Some("configured secret"), 3, None, None, true));
+                let mut c1 = Cli::connect(p, None).await.expect("connect");
+                let st = c1.login(2, None, Stage::Transferred, Duration::from_millis(2000)).await;
+                let cookie = c1.stored_auth.clone();
+                tokio::time::sleep(Duration::from_millis(1000 * wait + 300)).await;
+                let mut c2 = Cli::connect(p, None).await.expect("connect");
+                c2.login(3, cookie.clone(), Stage::EncRequest, Duration::from_millis(1500)).await;
+                let observed = match (cookie.is_some(), c2.should_auth) { (false, _) => "noissue", (_, Some(false)) => "accept", (_, Some(true)) => "reject", (_, None) => "norequest" };
+                let want = if wait <= cfgexp { "accept" } else { "reject" };
+                let oracle = if observed == want { None } else { Some(format!("configured auth_cookie_expiry={cfgexp}s: the cookie the server issued (first login reached {st:?}) presented {wait}s later must be {want}ed, the server's answer was {observed}")) };
+                Case { request: req.into(), observed: observed.into(), oracle, class: format!("issued:{}", if wait <= cfgexp { "fresh" } else { "expired" }) }
             }
             "c14.deadline" => {
                 let (timeout, proxy) = (kvn(req, "timeout"), kvn(req, "proxy") == 1);
@@ -449,6 +473,13 @@ fn c14_case(req: &str) -> Case {
                 }
                 if closed.is_none() {
                     match proto {
+                        Some(_) if style == "idle-after-pong" => {
+                            // a complete status exchange (reply and pong received), then the client neither sends nor closes
+                            c.status(Duration::from_millis(400)).await;
+                            c.send(&b::ping(7)).await;
+                            let _ = c.recv(Duration::from_millis(400)).await;
+                            closed = Some(c.wait_close(horizon).await);
+                        }
                         Some(pm) => {
                             c.status(Duration::from_millis(400)).await;
                             if let Some(t) = sleep_or_close(&mut c, pm).await { closed = Some(Some(t)); }
@@ -540,6 +571,12 @@ pub fn run_c14(a: &Args) {
             }
         });
     }
+    // fixed probes on every run: no secret configured; the server's own cookie before and after its expiry; idle after a completed exchange
+    reqs.push("c14.cookie cfgexp=21600 age=0 same=1 nosecret=1".into());
+    reqs.push("c14.issued cfgexp=2 wait=4".into());
+    reqs.push("c14.issued cfgexp=600 wait=1".into());
+    reqs.push("c14.deadline timeout=2000 proxy=0 header=none proto=0 style=idle-after-pong".into());
+    reqs.push("c14.deadline timeout=2000 proxy=1 header=300 proto=0 style=idle-after-pong".into());
     if a.thorough {
         // a client answering every keep-alive while routing never completes (first keep-alive after 16 s)
         reqs.push("c14.deadline timeout=20000 proxy=0 header=none proto=none style=keepalive".into());
@@ -880,7 +917,7 @@ fn c17_race(req: &str) -> Case {
                 let Ok(s) = s else { return false };
                 s.set_nonblocking(true).unwrap();
                 let s = TcpStream::from_std(s).unwrap();
-                let mut c = Cli { s, enc: None, rx: vec![], phase: ClientPhase::Handshake, bytes_in: 0, t0: Instant::now(), should_auth: None, got_transfer: false, stored_auth: None };
+                let mut c = Cli { s, enc: None, rx: vec![], phase: ClientPhase::Handshake, bytes_in: 0, t0: Instant::now(), should_auth: None, got_transfer: false, stored_auth: None, auth_requested: false };
                 c.status(Duration::from_millis(300)).await.is_some()
             };
             let (_, hit) = tokio::join!(server, client);
